@@ -34,6 +34,8 @@ type respSpec struct {
 	Truncate   int         `json:"truncate,omitempty"` // > 0: send only that many entity bytes, then close
 	Close      bool        `json:"close,omitempty"`
 	Gzip       bool        `json:"gzip,omitempty"`
+	CloseAfter int         `json:"close_after,omitempty"` // h1: read that many body bytes, then close the connection without answering
+	ReadOnly   int         `json:"read_only,omitempty"`   // h2/h3 handler: read that many body bytes, answer, return
 	body       []byte      // entity bytes on the wire
 }
 
@@ -194,6 +196,15 @@ func (o *h1Origin) handle(c net.Conn) {
 		}
 		rs := sc.resps[idx]
 		raw := rs.raw(rq.Method)
+		if rs.CloseAfter > 0 {
+			io.CopyN(io.Discard, rq.Body, int64(rs.CloseAfter))
+			wire := cc.slice(start, cc.size()-br.Buffered())
+			o.mu.Lock()
+			sc.obs[idx] = h1Obs{Wire: wire}
+			o.mu.Unlock()
+			close(sc.done[idx])
+			return
+		}
 		if rs.EarlyFinal {
 			wire := cc.slice(start, cc.size()-br.Buffered())
 			c.Write(raw)
@@ -258,6 +269,7 @@ type exSpec struct {
 	Retry    bool        `json:"retry,omitempty"`
 	Warm     bool        `json:"warm_up,omitempty"`    // a GET with its own request-level dumper goes first on the same client / connection
 	WantErr  bool        `json:"want_error,omitempty"` // the scripted exchange ends in an error (reset upload)
+	Abort    string      `json:"abort,omitempty"`      // "h1-close" | "h3-partial": the upload breaks off at an amount the client decides
 	Resps    []respSpec  `json:"resps"`
 	Shape    string      `json:"shape"`
 	body     []byte
@@ -453,6 +465,15 @@ type callRes struct {
 	Header []string `json:"header"`
 	Body   []byte   `json:"-"`
 	BodyN  int      `json:"body_len"`
+}
+
+// sameOutcome: for exchanges scripted to fail only "failed" is compared (which error the broken
+// connection surfaces as - EOF, reset, broken pipe - depends on timing, with or without dump)
+func sameOutcome(ex exSpec, a, b callRes) bool {
+	if ex.WantErr {
+		return (a.Err != "") == (b.Err != "")
+	}
+	return a.equal(b)
 }
 
 func (a callRes) equal(b callRes) bool {
@@ -849,7 +870,71 @@ func coqReads(p partsObs, pl *pool) string {
 
 // ---------- the pairs ----------
 
-func h1Pairs(r *hk.Run, rng *hk.Rand, count int) {
+func h1Pairs(r *hk.Run, rng *hk.Rand, count int) { h1PairsGen(r, rng, count, genExchange) }
+
+// genH1Abort: a Content-Length upload; the origin reads part of it and closes the connection
+func genH1Abort(rng *hk.Rand) exSpec {
+	var ex exSpec
+	ex.Method = hk.Pick(rng, []string{"POST", "PUT"})
+	ex.Path = fmt.Sprintf("/up%d", rng.Intn(1000))
+	ex.Headers, _ = genHeaders(rng, "X-Q-")
+	ex.BodyKind = "bytes"
+	ex.BodyLen = hk.Pick(rng, []int{5000, 70000, 300000})
+	ex.body = genBytes(rng, ex.BodyLen, rng.Chance(60))
+	ex.WantErr, ex.Abort = true, "h1-close"
+	k := hk.Pick(rng, []int{1, 100, 4096, ex.BodyLen / 2})
+	ex.Resps = []respSpec{{Status: 0, Framing: "none", CloseAfter: k}}
+	ex.Shape = fmt.Sprintf("abort-close+body%d+read%d", ex.BodyLen, k)
+	return ex
+}
+
+func h1AbortPairs(r *hk.Run, rng *hk.Rand, count int) { h1PairsGen(r, rng, count, genH1Abort) }
+
+// abortAdjust: for an upload that breaks off at a point the client side decides (how much the
+// connection's buffers took before the write failed) the dumped amount n is read off the total
+// size of what one body dumper received; the oracle then demands: received by the peer <= n <=
+// body, the dump holds exactly body[:n] (checked with all other parts by compareContents) and the
+// separator iff n = whole body.  Returns n and whether the relation holds.
+func abortAdjust(cfg dumpCfg, xs []partsObs, k int, body, received, sep []byte, sink map[[2]int][]byte) (int, bool) {
+	n := len(received)
+	xs[k].HasReqBody, xs[k].ReqBody, xs[k].ReqBodySep, xs[k].ReqBodyEnd = true, nil, nil, nil
+	base := expectedContents(cfg, xs)
+	for level, o := range []*optSpec{cfg.Client, cfg.Request} {
+		if o == nil || !o.On[1] {
+			continue
+		}
+		got, exp := 0, 0
+		for key, v := range sink {
+			if key[0] == level {
+				got += len(v)
+			}
+		}
+		for key, v := range base {
+			if key[0] == level {
+				exp += len(v)
+			}
+		}
+		n = got - exp
+		if n == len(body)+len(sep) {
+			n = len(body)
+		}
+		break
+	}
+	ok := n >= len(received) && n <= len(body)
+	if n < 0 {
+		n = 0
+	}
+	if n > len(body) {
+		n = len(body)
+	}
+	xs[k].ReqBody = body[:n]
+	if n == len(body) {
+		xs[k].ReqBodySep = sep
+	}
+	return n, ok
+}
+
+func h1PairsGen(r *hk.Run, rng *hk.Rand, count int, gen func(*hk.Rand) exSpec) {
 	o, err := newH1Origin()
 	if err != nil {
 		r.Notes = append(r.Notes, "h1 listen failed: "+err.Error())
@@ -857,7 +942,7 @@ func h1Pairs(r *hk.Run, rng *hk.Rand, count int) {
 	}
 	defer o.ln.Close()
 	for i := 0; i < count; i++ {
-		ex := genExchange(rng)
+		ex := gen(rng)
 		cfg := genCfg(rng, r)
 		if ex.Retry && cfg.Request != nil {
 			// Request.do resets the request's own dump buffer before a retry (documented: the
@@ -902,7 +987,7 @@ func h1Pairs(r *hk.Run, rng *hk.Rand, count int) {
 			continue
 		}
 		// transparency: caller-visible result and error class
-		if !off.Res.equal(on.Res) {
+		if !sameOutcome(ex, off.Res, on.Res) {
 			failOnce(r, hk.Failure{Sig: "transparent:result:" + sigBase, What: "caller-visible result differs between dump off and dump on", Input: in, Got: on.Res, Want: off.Res})
 		}
 		// transparency: wire
@@ -912,6 +997,14 @@ func h1Pairs(r *hk.Run, rng *hk.Rand, count int) {
 		wireSame := len(obOff) == len(obOn)
 		for k := 0; wireSame && k < len(obOn); k++ {
 			wireSame = bytes.Equal(obOff[k].Wire, obOn[k].Wire) && obOff[k].Extra == obOn[k].Extra
+		}
+		if ex.Abort != "" { // how much the origin had read when it closed is timing; the header block is not
+			wireSame = len(obOff) == 1 && len(obOn) == 1
+			if wireSame {
+				h0, _ := splitHeader(obOff[0].Wire)
+				h1, _ := splitHeader(obOn[0].Wire)
+				wireSame = bytes.Equal(h0, h1)
+			}
 		}
 		if !wireSame {
 			failOnce(r, hk.Failure{Sig: "transparent:wire:" + sigBase, What: "bytes received by the origin differ between dump off and dump on", Input: in,
@@ -942,7 +1035,24 @@ func h1Pairs(r *hk.Run, rng *hk.Rand, count int) {
 			pl.add(p.parts.RespBody)
 			pl.add(resps[k].body)
 		}
+		if ex.Abort != "" && len(xs) == 1 {
+			p := hps[0]
+			received := bytes.Join(p.chunks, nil)
+			n, ok := abortAdjust(cfg, xs, 0, ex.body, received, []byte("\r\n"), on.Sink)
+			xs[0].NoResp, xs[0].RespHeader = true, nil
+			if !ok {
+				failOnce(r, hk.Failure{Sig: "faithful:abandoned-upload:" + sigBase, What: "request-body dump of an upload that broke off is not between what the peer received and the whole body", Input: in,
+					Got: fmt.Sprintf("%d body bytes dumped", n), Want: fmt.Sprintf("between %d (received by the origin) and %d", len(received), len(ex.body))})
+			}
+			r.Count(fmt.Sprintf("h1.upload-abandoned(dumped<body=%v)", n < len(ex.body)))
+			pl.add(ex.body)
+			coqX = append(coqX, fmt.Sprintf("X1a %s %s %s", pl.enc(p.hdr), pl.enc(ex.body), hk.CoqNat(n)))
+			hps = nil
+		}
 		for k, ob := range obOn {
+			if hps == nil {
+				break
+			}
 			p := hps[k]
 			n := ex.ReadBuf
 			if n == 0 {
